@@ -27,9 +27,10 @@ def run(ctx):
         dict(label="bar/static/fixed", dev="bar", current=3.0, field=0.4, adaptive=False, dt=dt, solve_time=N * dt - dt / 2),
         dict(label="barhole/adaptive", dev="barhole", current=6.0, field=0.8, adaptive=True, dt=dt, dt_max=0.05, solve_time=0.9),
     ]
+    physics.append(dict(label="bar/screening", dev="bar", current=2.0, field=0.5, adaptive=False, dt=dt,
+                        solve_time=16 * dt - dt / 2, screening=True))
     if not ctx.quick:
         physics += [
-            dict(label="bar/screening", dev="bar", current=2.0, field=0.5, adaptive=False, dt=dt, solve_time=16 * dt - dt / 2, screening=True),
             dict(label="tee/ramp", dev="bar", current=5.0, current_ramp=0.2, field=0.3, field_ramp=0.3, adaptive=True, dt=dt, dt_max=0.05, solve_time=0.6),
             dict(label="bar/thermal", dev="bar", current=3.0, field=0.4, adaptive=False, dt=dt, solve_time=12 * dt - dt / 2, skip_time=5 * dt - dt / 2),
         ]
@@ -47,9 +48,9 @@ def run(ctx):
         a = dict(base, k=rnd.choice([1, 2, 3]), split=[s * dt - dt / 2, (N - s) * dt - dt / 2])
         jobs.append(("call", dict(module="harness.twin", func="solve_frames", args=a)))
         fam.append(base["label"])
-    if not ctx.quick:
-        b2 = physics[2]
-        for s in (2, 5, 9, 13):
+    b2 = physics[2]
+    for s in ((5, 11) if ctx.quick else (2, 5, 9, 13)):
+        if True:
             a = dict(b2, k=2, split=[s * dt - dt / 2, (16 - s) * dt - dt / 2])
             jobs.append(("call", dict(module="harness.twin", func="solve_frames", args=a)))
             fam.append(b2["label"])
